@@ -357,6 +357,10 @@ func (c *ShardedMapOf[V]) Restore(r io.Reader) (int, error) {
 		h := xxhash.Sum64(e.K)
 		b := &c.hashedBuckets[h%shards]
 
+		// Usage counter describes serving history in the cache of origin (last serve timestamp or number of
+		// serves, depending on eviction strategy there), this cache has not served the entry yet.
+		e.C = 0
+
 		c.t.entryRestored(e.E)
 
 		b.Lock()
